@@ -1,51 +1,92 @@
 #!/usr/bin/env python3
 """Copy confirmed seeded changes from the sub-agents' output into /verif/seeded/<id>/ with meta.json, and write seeded/MATRIX.md
-from the seed-matrix TSV files (tools/seed_matrix.sh)."""
-import json, os, re, shutil, glob, sys
-SRC = "/tmp/seed/out"; DST = "/verif/seeded"
-conf = {}
-for log in glob.glob("/tmp/seed/confirm*.log"):
-    for line in open(log):
-        m = re.match(r"(C\d+)/(\d): tests_exit=(\d+) \[(.*?)\] demo_with=(\d+) demo_without=(\d+)", line)
-        if m:
-            conf[(m.group(1), int(m.group(2)))] = dict(tests_exit=int(m.group(3)), tests=m.group(4), demo_with_patch_exit=int(m.group(5)), demo_without_patch_exit=int(m.group(6)))
-det = {}
-for tsv in sorted(glob.glob("/verif/out/matrix*.tsv")):
-    for line in open(tsv):
-        f = line.rstrip("\n").split("\t")
-        if len(f) >= 7:
-            det.setdefault((f[0], int(f[1])), {})[f[2]] = dict(exit=f[3].split("=")[1], violations=int(f[4].split("=")[1]), harness_errors=int(f[5].split("=")[1]), inconclusive=int(f[6].split("=")[1]), first=(f[7] if len(f) > 7 else ""))
+from the seed-matrix TSV files (tools/seed_matrix.sh).  Round 1: /tmp/seed/out (patch1, patch2); round 2: /tmp/seed/out2 (kept as
+patch3, patch4); benign refactorings: /tmp/seed/out3 (kept under seeded/benign/)."""
+import json, os, re, shutil, glob
+DST = "/verif/seeded"
+ROUNDS = [("/tmp/seed/out", ["/tmp/seed/confirm1.log", "/tmp/seed/confirm2.log"], ["/verif/out/matrix_full.tsv", "/verif/out/old/matrix*.tsv", "/verif/out/matrix_fix*.tsv"], 0),
+          ("/tmp/seed/out2", ["/tmp/seed/confirm_r2a.log", "/tmp/seed/confirm_r2b.log"], ["/verif/out/matrix_r2*.tsv"], 2)]
+
+
+def parse_conf(logs):
+    conf = {}
+    for log in logs:
+        if not os.path.exists(log):
+            continue
+        for line in open(log):
+            m = re.match(r"(C\d+)/(\d): tests_exit=(\d+) \[(.*?)\] demo_with=(\d+) demo_without=(\d+)", line)
+            if m:
+                conf[(m.group(1), int(m.group(2)))] = dict(tests_exit=int(m.group(3)), tests=m.group(4), demo_with_patch_exit=int(m.group(5)), demo_without_patch_exit=int(m.group(6)))
+    return conf
+
+
+def parse_det(pats):
+    det = {}
+    files = []
+    for p in pats:
+        files += sorted(glob.glob(p), key=os.path.getmtime)
+    for tsv in files:
+        for line in open(tsv):
+            f = line.rstrip("\n").split("\t")
+            if len(f) >= 7 and f[3].startswith("exit="):
+                det.setdefault((f[0], int(f[1])), {})[f[2]] = dict(exit=f[3].split("=")[1], violations=int(f[4].split("=")[1]), harness_errors=int(f[5].split("=")[1]), inconclusive=int(f[6].split("=")[1]), first=(f[7] if len(f) > 7 else ""))
+    return det
+
+
 rows = []
-for (pid, n), c in sorted(conf.items()):
-    ok = c["tests_exit"] == 0 and "99 passed" in c["tests"] and c["demo_with_patch_exit"] != 0 and c["demo_without_patch_exit"] == 0
-    if not ok:
-        print("NOT kept (confirmation failed):", pid, n, c)
-        continue
-    d = os.path.join(DST, pid)
-    os.makedirs(d, exist_ok=True)
-    for fn in ("patch%d.diff" % n, "demo%d.py" % n):
-        shutil.copy(os.path.join(SRC, pid, fn), os.path.join(d, fn))
+for SRC, logs, mats, off in ROUNDS:
+    conf, det = parse_conf(logs), parse_det(mats)
+    for (pid, n), c in sorted(conf.items()):
+        ok = c["tests_exit"] == 0 and "99 passed" in c["tests"] and c["demo_with_patch_exit"] != 0 and c["demo_without_patch_exit"] == 0
+        if not ok:
+            print("NOT kept (confirmation failed):", SRC, pid, n, c)
+            continue
+        d = os.path.join(DST, pid)
+        os.makedirs(d, exist_ok=True)
+        k = n + off
+        shutil.copy(os.path.join(SRC, pid, "patch%d.diff" % n), os.path.join(d, "patch%d.diff" % k))
+        shutil.copy(os.path.join(SRC, pid, "demo%d.py" % n), os.path.join(d, "demo%d.py" % k))
+        notes = {}
+        try:
+            notes = json.load(open(os.path.join(SRC, pid, "notes.json"))).get("patch%d" % n, {})
+        except Exception:
+            pass
+        mp = os.path.join(d, "meta.json")
+        meta = json.load(open(mp)) if os.path.exists(mp) else {"property": pid, "changes": {}}
+        dd = det.get((pid, n), {})
+        meta["changes"]["patch%d" % k] = {
+            "breaks_property": pid, "round": 1 if off == 0 else 2, "summary": notes.get("summary"), "needs_to_manifest": notes.get("needs_to_manifest"), "files": notes.get("files"),
+            "written_by": "independent sub-agent given only the property text and a scratch worktree",
+            "confirmed_by_me": {"command": "tools/confirm_seed.sh %s %d (scratch worktree /tmp/seed/%s: git apply; pytest -q -x; demo; git checkout; demo)" % (pid, n, pid), **c},
+            "checks_run_against_it": dd,
+        }
+        json.dump(meta, open(mp, "w"), indent=1)
+        caught = [kk for kk, v in dd.items() if v["exit"] == "1" and v["violations"] > 0]
+        rows.append((pid, k, (notes.get("summary") or "")[:120].replace("|", "/").replace("\n", " "), ", ".join("%s(%s)" % (kk, "VIOLATION x%d" % v["violations"] if v["exit"] == "1" else ("harness-error" if v["exit"] == "2" else "exit 0, %d inconclusive" % v["inconclusive"])) for kk, v in sorted(dd.items())), "yes: " + ", ".join(caught) if caught else "NO"))
+
+# benign refactorings
+ben = parse_det(["/verif/out/matrix_benign*.tsv"])
+brow = []
+bd = os.path.join(DST, "benign")
+os.makedirs(bd, exist_ok=True)
+for (rid, n), dd in sorted(ben.items()):
+    src = "/tmp/seed/out3/%s/patch%d.diff" % (rid, n)
+    if os.path.exists(src):
+        shutil.copy(src, os.path.join(bd, "%s_patch%d.diff" % (rid, n)))
     notes = {}
     try:
-        notes = json.load(open(os.path.join(SRC, pid, "notes.json"))).get("patch%d" % n, {})
+        notes = json.load(open("/tmp/seed/out3/%s/notes.json" % rid)).get("patch%d" % n, {})
     except Exception:
         pass
-    mp = os.path.join(d, "meta.json")
-    meta = json.load(open(mp)) if os.path.exists(mp) else {"property": pid, "changes": {}}
-    meta["changes"]["patch%d" % n] = {
-        "breaks_property": pid, "summary": notes.get("summary"), "needs_to_manifest": notes.get("needs_to_manifest"), "files": notes.get("files"),
-        "written_by": "independent sub-agent given only the property text and a scratch worktree",
-        "confirmed_by_me": {"command": "tools/confirm_seed.sh %s %d (scratch worktree /tmp/seed/%s: git apply; pytest -q -x; demo; git checkout; demo)" % (pid, n, pid), **c},
-        "checks_run_against_it": det.get((pid, n), {}),
-    }
-    json.dump(meta, open(mp, "w"), indent=1)
-    dd = det.get((pid, n), {})
-    caught = [k for k, v in dd.items() if v["exit"] == "1" and v["violations"] > 0]
-    rows.append((pid, n, (notes.get("summary") or "")[:110].replace("|", "/"), ", ".join("%s(%s)" % (k, "VIOLATION x%d" % v["violations"] if v["exit"] == "1" else ("harness-error" if v["exit"] == "2" else "exit 0, %d inconclusive" % v["inconclusive"])) for k, v in sorted(dd.items())), "yes: " + ", ".join(caught) if caught else "NO"))
+    brow.append((rid, n, (notes.get("summary") or "")[:140].replace("|", "/").replace("\n", " "), ", ".join("%s(exit %s%s)" % (kk, v["exit"], ", %d inconclusive" % v["inconclusive"] if v["inconclusive"] else "") for kk, v in sorted(dd.items()))))
+
 with open(os.path.join(DST, "MATRIX.md"), "w") as f:
-    f.write("# Seeded changes x checks (quick tier)\n\nEach change passes the 99-test suite; its demonstration fails with it and passes without.\n\n| seed | what it changes | checks run (result) | caught |\n|---|---|---|---|\n")
+    f.write("# Seeded changes x checks (quick tier)\n\nEach seeded change passes the 99-test suite; its demonstration fails with it and passes without (patch1/2: first round, patch3/4: second round of independent sub-agents).\n\n| seed | what it changes | checks run (result) | caught |\n|---|---|---|---|\n")
     for r in rows:
         f.write("| %s/patch%d | %s | %s | %s |\n" % r)
     n_c = sum(1 for r in rows if r[4].startswith("yes"))
     f.write("\n%d of %d seeded changes are reported as VIOLATION by at least one quick check.\n" % (n_c, len(rows)))
-print("kept", len(rows))
+    f.write("\n# Behaviour-preserving refactorings x checks\n\nWritten by sub-agents asked for substantial refactorings that keep every result identical (test-suite green, recorded reference values reproduced). A check must stay quiet on these: exit 0 (inconclusive obligations allowed), no VIOLATION, no harness error. Rows show the LAST run of each check.\n\n| refactoring | what it changes | checks run (result) |\n|---|---|---|\n")
+    for r in brow:
+        f.write("| %s/patch%d | %s | %s |\n" % r)
+print("kept", len(rows), "seeds;", len(brow), "benign refactorings")
